@@ -376,6 +376,111 @@ fn check_no_resume(t: &mut Tape, ctx: &Ctx) -> Outcome {
     }
 }
 
+// ------------------------------------------------------------------ C: the program edits itself (DELETE / NEW as program statements)
+
+fn check_self_edit(t: &mut Tape, ctx: &Ctx) -> Outcome {
+    let mut h = new_hist();
+    let mut o1 = GenOpts::plain();
+    o1.stop = false;
+    o1.size = 12;
+    let g1 = gen::program(t, &o1);
+    h.replies = g1.replies.clone();
+    for x in g1.prog.texts() {
+        h.edit(&x);
+    }
+    let nums = numbers_of(&h.term);
+    if nums.is_empty() {
+        return Outcome::discard("empty listing");
+    }
+    // plant the self-editing statement right behind a random line (generated numbers leave gaps)
+    let at = *t.pick(&nums);
+    let m = *t.pick(&nums);
+    let m2 = *t.pick(&nums);
+    let stmt = match t.weighted(&[4, 2, 2, 1, 1]) {
+        0 => format!("DELETE {}", m),
+        1 => format!("DELETE {}-{}", m.min(m2), m.max(m2)),
+        2 => format!("DELETE {}-", m),
+        3 => format!("DELETE -{}", m),
+        _ => "NEW".to_string(),
+    };
+    let n = at.saturating_add(1 + t.below(4) as u16);
+    if nums.contains(&n) || n > 65529 {
+        return Outcome::discard("no free line number behind the chosen line");
+    }
+    let pre = *t.pick(&["", "PRINT \"ED\":", "Q9=1:"]);
+    let post = *t.pick(&["", ":PRINT \"AFTER\"", ":GOTO 10"]);
+    h.edit(&format!("{} {}{}{}", n, pre, stmt, post));
+    let before = listing(&h.term);
+    h.note("enter \"RUN\"");
+    let mut o = h.opts(4000);
+    h.term.line("RUN", &mut o);
+    let ev = h.term.take();
+    if let Some(mm) = has_panic(&ev) {
+        return Outcome::fail("panic", mm, h.script);
+    }
+    let after = listing(&h.term);
+    if before == after {
+        return Outcome::discard("the run did not reach the editing statement, or it removed nothing");
+    }
+    let frames = h.term.rt.verif_probe().stack_len;
+    h.term.line("TRON", &mut o);
+    h.term.take();
+    let probe = t.pick(&["CONT", "CONT", "RETURN", "NEXT", "PRINT FNA(1)", "NEXT I"]).to_string();
+    h.note(&format!("enter \"TRON\"\nenter {:?}   <- the program edited itself: must not execute any program line", probe));
+    crate::runner::note_case(&h.script);
+    h.term.line(&probe, &mut o);
+    let ev = h.term.take();
+    if let Some(mm) = has_panic(&ev) {
+        return Outcome::fail("panic", mm, h.script);
+    }
+    let out = printed(&ev);
+    let case = format!("{}\nlisting at the end:\n{}", h.script, after.join("\n"));
+    if out.contains('[') || !out.trim().is_empty() {
+        return Outcome::fail_sig(
+            "old-execution-resumed-after-self-edit",
+            format!("self-edit-resumed:{}", probe.split(|c: char| !c.is_ascii_alphabetic()).next().unwrap_or("")),
+            format!("after the program executed {:?} (which changed the listing), {:?} printed {:?} (full: {:?})", stmt, probe, out, flat(&ev)),
+            case,
+        );
+    }
+    // and RUN afterwards equals RUN in a fresh interpreter holding the listing
+    h.term.line("TROFF", &mut o);
+    h.term.take();
+    let mut o = h.opts(4000);
+    let end_h = h.term.line("RUN", &mut o);
+    let ev_h = h.term.take();
+    let mut f = Term::new();
+    let mut of = h.opts(4000);
+    for l in &after {
+        f.enter_raw(l);
+        f.run(&mut of);
+    }
+    f.take();
+    let mut of = h.opts(4000);
+    let end_f = f.line("RUN", &mut of);
+    let ev_f = f.take();
+    if let Some(mm) = has_panic(&ev_h).or(has_panic(&ev_f)) {
+        return Outcome::fail("panic", mm, h.script);
+    }
+    if ev_h != ev_f || end_h != end_f || listing(&h.term) != listing(&f) {
+        return Outcome::fail(
+            "run-after-self-edit-differs-from-fresh-interpreter",
+            format!("RUN after the self-edit:\n{}\n--- RUN in a fresh interpreter holding the same listing:\n{}", flat(&ev_h), flat(&ev_f)),
+            case,
+        );
+    }
+    let mut labels = vec![if stmt == "NEW" { "self-edit: NEW" } else { "self-edit: DELETE" }];
+    if frames > 0 {
+        labels.push("frames were open when the program edited itself");
+    }
+    let o2 = Outcome::pass(true, hash_str(&case)).with_labels(labels);
+    if ctx.render {
+        o2.with_case(case)
+    } else {
+        o2
+    }
+}
+
 // ------------------------------------------------------------------ literal histories (regressions)
 
 const SCRIPTS: &[&str] = &[
@@ -386,6 +491,7 @@ const SCRIPTS: &[&str] = &[
     "10 FOR I=1 TO 3\n20 STOP\n30 NEXT\nRUN\nDELETE 30\nTRON\nNEXT\n=> ?BREAK IN 20\\n?NEXT WITHOUT FOR\\n",
     "10 DEF FNA(X)=X+1\n20 STOP\nRUN\n10\nTRON\nPRINT FNA(1)\n=> ?BREAK IN 20\\n?UNDEFINED USER FUNCTION\\n",
     "10 PRINT 1\n20 STOP\n30 PRINT 3\nRUN\n25 PRINT 2\nCONT\n=>  1 \\n?BREAK IN 20\\n?CAN'T CONTINUE\\n",
+    "10 PRINT \"A\"\n20 DELETE 10\n30 PRINT \"B\"\nRUN\nCONT\n=> A\\n?CAN'T CONTINUE\\n",
 ];
 
 fn gen_scripts(part: usize, parts: usize, _th: bool, emit: &mut dyn FnMut(&str)) {
@@ -422,7 +528,7 @@ pub fn property() -> Property {
         id: "C04",
         rule: "Cases: proptest-generated edit histories of up to 15 operations over a generated program (typed in order, in reverse order, or loaded with set_listing): insert/replace with lines of a second generated program (references may dangle), bare number for existing and absent lines, DELETE in all range forms, RENUM with several argument triples, NEW, \
 interleaved non-editing direct statements, partial runs that stop at STOP/END/error or are interrupted after k calls, CONT. (run_vs_fresh) the history ends in RUN or RUN n; the same command in a fresh interpreter into which get_listing()'s lines were typed must give the identical transcript and final variables. \
-(no_resume) a run is stopped inside the program, an effective edit follows, then with TRON on one of CONT / RETURN / NEXT / NEXT I / PRINT FNx(..) must print no trace and no program output. (clause C, inside both) every non-editing direct statement leaves get_listing() unchanged. \
+(no_resume) a run is stopped inside the program, an effective edit follows, then with TRON on one of CONT / RETURN / NEXT / NEXT I / PRINT FNx(..) must print no trace and no program output. (self_edit) a DELETE range or NEW is planted as a program statement; once the run has executed it and the listing changed, CONT / RETURN / NEXT / FNx under TRON must execute nothing, and a following RUN must equal RUN in a fresh interpreter holding the listing. (clause C, inside both) every non-editing direct statement leaves get_listing() unchanged. \
 Non-trivial: an effective edit after a compile (the only way the dirty flag matters) / every no_resume case. Distinct by history text.",
         assumptions: vec![
             "differential oracle (fresh interpreter = same implementation): it detects history-dependent behaviour, not wrong behaviour common to both",
@@ -433,6 +539,7 @@ Non-trivial: an effective edit after a compile (the only way the dirty flag matt
             Sub::items("history_scripts", gen_scripts, check_script, false),
             Sub::tape("run_vs_fresh", check_run_fresh, 30_000, 1_000_000, 1400),
             Sub::tape("no_resume", check_no_resume, 20_000, 600_000, 1400),
+            Sub::tape("self_edit", check_self_edit, 20_000, 600_000, 900),
         ],
     }
 }
